@@ -32,7 +32,8 @@ def cmp_text(op, x, s, child="eq", k="k"):
     if op == "in":
         return f"{x} in {s}"
     if op == "getitem":
-        return cmp_text(child, x, f"{s}[{k}]")
+        # ACCESS_ONLY (vp): the key is accessed, the sub-snapshot is not compared
+        return f"(lambda sub: ({cmp_text(child, x, 'sub')}) if {x} is not ACCESS_ONLY else True)({s}[{k}])"
     raise AssertionError(op)
 
 
